@@ -747,6 +747,7 @@ def rule_chain(c: Ctx) -> RuleResult:
                       f"loop-body simulation: {'appended' if got else 'skipped'} as required")
     # comprehension form of the fill (in __compile__ itself or in a private helper of Ruler it calls)
     helpers = [f] + [g for cs in c.cg.sites.get(f, []) for g in cs.callees if g.cls == f.cls and g is not f]
+    covered_C: set[bool] = set()
     if found == 0:
       for hf in helpers:
         for n in own_nodes(hf.node):
@@ -779,7 +780,25 @@ def rule_chain(c: Ctx) -> RuleResult:
                       "iterates self.__rules__ itself (registration order)" + (" through a pre-filtered list" if pre else "") if ok_iter else
                       "does not iterate self.__rules__ directly")
                 cond = ast.BoolOp(op=ast.And(), values=list(g.ifs)) if g.ifs else ast.Constant(value=True)
+                # the comprehension may sit in one arm of `if <chain>: ... else: ...` (the default chain and the named chains
+                # filled by two comprehensions): it is only judged on the rows its arm admits; the arms together cover all rows
+                admits = {False, True}
+                q_, ch_ = hf.module.parents.get(n), n
+                while q_ is not None and q_ is not hf.node and chainvar is not None:
+                    if isinstance(q_, ast.If):
+                        t_, neg_ = q_.test, False
+                        while isinstance(t_, ast.UnaryOp) and isinstance(t_.op, ast.Not):
+                            t_, neg_ = t_.operand, not neg_
+                        if isinstance(t_, ast.Name) and t_.id == chainvar:
+                            in_body = any(x is ch_ for x in q_.body)
+                            admits &= {(not neg_) if in_body else neg_}
+                    elif isinstance(q_, ast.IfExp) and isinstance(q_.test, ast.Name) and q_.test.id == chainvar:
+                        admits &= {ch_ is q_.body}
+                    ch_, q_ = q_, hf.module.parents.get(q_)
+                covered_C.update(admits)
                 for E, C, M in itertools.product((False, True), repeat=3):
+                    if C not in admits:
+                        continue
                     env = {"E": E, "C": C, "M": M}
                     want = E and ((not C) or M)
                     got = _truth(cond, env, rulevar, chainvar)
@@ -790,6 +809,9 @@ def rule_chain(c: Ctx) -> RuleResult:
                     r.add(f"__compile__|truth|{desc}", where, "Ruler.__compile__", desc, "discharged" if ok else "violation",
                           "comprehension filter evaluates as required" if ok else
                           "comprehension filter differs from: enabled and (default chain or member)")
+    if found and covered_C and covered_C != {False, True}:
+        r.add("__compile__|truth|coverage", f"markdown_it/ruler.py:{f.node.lineno}", "Ruler.__compile__", "chains filled", "violation",
+              f"the comprehensions fill only the {'named chains' if covered_C == {True} else 'default chain'}: the other kind of chain is never built")
     if found == 0:
         raise AnchorError("Ruler.__compile__: no loop appending <rule>.fn found")
     # chain-name collection: alt names of enabled rules reach the set of chains
